@@ -318,6 +318,12 @@ func verifyArgsUsed(set *ProviderSet, used []*providerSetSrc) []error {
 				found = true
 				break
 			}
+			if u.Field != nil && u.Field.call == f.call {
+				// Another field listed by the same wire.FieldsOf call is used,
+				// so the call as a whole contributes to the injector.
+				found = true
+				break
+			}
 		}
 		if !found {
 			errs = append(errs, fmt.Errorf("unused field %q.%s", f.Parent, f.Name))
